@@ -241,12 +241,21 @@ def prior_variants(srcname, srce):
     out = [("absent", {})]
     if e[0] == "file":
         c, m, t = e[1], e[2], e[3]
-        out.append(("identical", {key: F(c, m, t)}))
-        out.append(("other-mtime", {key: F(c, m, T2 if t == T1 else T1)}))
-        out.append(("other-size", {key: F("other" if c != "other" else "a", m, T2)}))
-        if c == "a":
-            out.append(("same-size-other-content", {key: F("a2", m, T2 if t == T1 else T1)}))
-        out.append(("mode-only", {key: F(c, 0o640 if m != 0o640 else 0o600, t)}))
+        # full factorial over what the receiver's decision table looks at: content (same / other
+        # of the same size / other size) x mtime (same / other) x mode (same / other); the cells
+        # "same size, same mtime, other content" are rsync's quick-check blind spot and left out
+        t_other = T2 if t == T1 else T1
+        m_other = 0o640 if m != 0o640 else 0o600
+        same_size_other = {"a": "a2", "a2": "a"}.get(c)
+        for cname, cc in (("same", c), ("samesize", same_size_other), ("othersize", "other" if c != "other" else "a")):
+            if cc is None:
+                continue
+            for tname, tt in (("t=", t), ("t!", t_other)):
+                for mname, mm in (("m=", m), ("m!", m_other)):
+                    if cname == "samesize" and tname == "t=":
+                        continue
+                    name = {("same", "t=", "m="): "identical", ("same", "t!", "m="): "other-mtime", ("same", "t=", "m!"): "mode-only"}.get((cname, tname, mname), f"{cname}-{tname}-{mname}")
+                    out.append((name, {key: F(cc, mm, tt)}))
         out.append(("is-dir", {key: D(), key + "/x": F("a")}))
         out.append(("is-link", {key: L("/etc")}))
         out.append(("readonly-identical", {key: F(c, 0o444, t)}))
@@ -334,6 +343,13 @@ def run_case(case):
                 with open(p, "wb") as f:
                     f.write(b"changed!")
                 os.utime(p, (T2 + 5, T2 + 5))
+            elif kind == "samelen" and os.path.isfile(p) and not os.path.islink(p):
+                n = os.path.getsize(p)
+                os.chmod(p, 0o644)
+                with open(p, "wb") as f:
+                    f.write(b"#" * n)
+                os.chmod(p, 0o755 if stat.S_IMODE(os.lstat(p).st_mode) != 0o755 else 0o600)
+                os.utime(p, (T2 + 9, T2 + 9))
             elif kind == "mode" and os.path.isfile(p) and not os.path.islink(p):
                 os.chmod(p, 0o600 if stat.S_IMODE(os.lstat(p).st_mode) != 0o600 else 0o444)
             elif kind == "kind":
@@ -369,20 +385,20 @@ def cases(tier):
         for priorname, prior in prior_variants(srcname, srce):
             for delete in (False, True):
                 for cwdkind in ("outside", "root", "subdir"):
-                    for follow in ("none", "resync", "modify-content", "modify-mode", "modify-kind"):
+                    for follow in ("none", "resync", "modify-content", "modify-mode", "modify-samelen", "modify-kind"):
                         for ntargets in (1, 2):
                             for extra in (False, True):
                                 if tier == "quick":
                                     # pairwise-style thinning that keeps every value of every factor with every source variant
                                     h = hash((srcname, priorname, delete, cwdkind, follow, ntargets, extra)) % 3
-                                    keep = h == 0 or (priorname in ("absent", "mode-only", "identical") and follow in ("none", "resync") and ntargets == 1 and not extra and cwdkind != "subdir" or (srcname.startswith("l-") and priorname == "absent" and follow == "none" and ntargets == 1 and not extra))
+                                    keep = h == 0 or ((priorname in ("absent", "mode-only", "identical") or priorname.startswith(("samesize", "same-", "othersize"))) and follow in ("none", "resync") and ntargets == 1 and not extra and cwdkind != "subdir" or (srcname.startswith("l-") and priorname == "absent" and follow == "none" and ntargets == 1 and not extra))
                                     if not keep:
                                         continue
                                 elif ntargets == 2 and (extra or follow not in ("none", "resync")):
                                     continue
                                 if follow.startswith("modify") and srcname.startswith("l-") and follow != "modify-kind":
                                     continue
-                                if follow in ("modify-content", "modify-mode") and not srcname.startswith("f-"):
+                                if follow in ("modify-content", "modify-mode", "modify-samelen") and not srcname.startswith("f-"):
                                     continue
                                 out.append((srcname, srce, priorname, prior, delete, cwdkind, ntargets, follow, extra))
     return out
